@@ -328,6 +328,10 @@ func (op HeapOp) src() string {
 		return set(fmt.Sprintf("(nth %s %d)", v(op.A), op.I))
 	case "get":
 		return set(fmt.Sprintf("(get %s %s)", v(op.A), op.Key))
+	case "get-default":
+		return set(fmt.Sprintf("(get-default %s %s %s)", v(op.A), op.Key, el))
+	case "key?":
+		return set(fmt.Sprintf("(if (key? %s %s) 1 0)", v(op.A), op.Key))
 	case "length":
 		return set("(length " + v(op.A) + ")")
 	case "assoc!":
@@ -491,8 +495,10 @@ func (h *heap) valid(op HeapOp) bool {
 			return true
 		}
 		return false
-	case "dissoc", "dissoc!", "keys", "get":
+	case "dissoc", "dissoc!", "keys", "get", "key?":
 		return a.k == hRef && a.obj.kind == oMap
+	case "get-default":
+		return a.k == hRef && a.obj.kind == oMap && len(op.Elems) == 1
 	case "nth":
 		return isSeqV(a) && op.I >= 0 && op.I < a.obj.n
 	case "length":
@@ -777,6 +783,20 @@ func (h *heap) apply(op HeapOp, callbackFailed bool) {
 		if e, ok := a.obj.m[name]; ok {
 			res = e.val
 		}
+	case "get-default":
+		// a key that is present yields its value, whatever that value is
+		name, _, _ := parseKey(op.Key)
+		if e, ok := a.obj.m[name]; ok {
+			res = e.val
+		} else {
+			res = h.elem(op.Elems[0])
+		}
+	case "key?":
+		name, _, _ := parseKey(op.Key)
+		res = hint(0)
+		if _, ok := a.obj.m[name]; ok {
+			res = hint(1)
+		}
 	case "length":
 		switch a.obj.kind {
 		case oMap:
@@ -932,7 +952,7 @@ func (heapEngine) Gen(r *Rand, tier string) any {
 		return out
 	}
 	kinds := []string{"list", "vector", "map", "bytes", "mkseq", "alias", "alias-via", "alias-via", "slice", "slice", "cdr", "rest", "append", "append", "cons", "reverse",
-		"map-inc", "select", "reject", "zip", "insert-index", "insert-sorted", "concat", "assoc", "dissoc", "keys", "nth", "get", "length",
+		"map-inc", "select", "reject", "zip", "insert-index", "insert-sorted", "concat", "assoc", "dissoc", "keys", "nth", "get", "get-default", "get-default", "key?", "length",
 		"assoc!", "assoc!", "dissoc!", "append!", "append!", "append!", "append-bytes!", "append-bytes", "slice-bytes", "append!-bytes", "sort", "sort", "sort", "sort-key", "sort-str", "sort-str", "keys", "sort-mod", "sort-mod", "copy", "copy", "append-ts-bytes", "append-bytes-v!", "append-bytes-v!", "append-bytes-v", "apply-rest", "apply-rest", "apply-sort", "apply-sort", "funcall-rest"}
 	var planned []HeapOp
 	for len(c.Ops) < n {
@@ -1001,7 +1021,7 @@ func (heapEngine) Gen(r *Rand, tier string) any {
 					})
 				case "sort", "sort-key", "sort-mod", "map-inc", "select", "reject", "insert-sorted":
 					want(func(v hval) bool { return isSeqV(v) && v.obj.n >= 2 && allInts(v.obj) })
-				case "keys", "get", "assoc", "assoc!", "dissoc", "dissoc!":
+				case "keys", "get", "get-default", "key?", "assoc", "assoc!", "dissoc", "dissoc!":
 					want(isKind(oMap))
 				case "append!":
 					want(isKind(oVec))
@@ -1086,8 +1106,11 @@ func (heapEngine) Gen(r *Rand, tier string) any {
 						op.I = r.Range(0, a.obj.n)
 					}
 					op.Key = PickStr(r, keys)
-				case "dissoc", "dissoc!", "get":
+				case "dissoc", "dissoc!", "get", "key?":
 					op.Key = PickStr(r, keys)
+				case "get-default":
+					op.Key = PickStr(r, keys)
+					op.Elems = elemsN(1, 1)
 				case "select", "reject", "insert-sorted":
 					op.I = r.Range(0, 9)
 				case "nth":
